@@ -1,5 +1,6 @@
 //! Entry point: `verif <cNN> [--tier quick|thorough] [--replay file]`.
 mod checks;
+mod adev;
 mod ctx;
 mod dev;
 mod explore;
